@@ -238,6 +238,8 @@ class _FunctionPass:
                 return FRESH
             if isinstance(e.value, ast.Name) and e.value.id == "self" and \
                     self.is_method and env.get("self") == frozenset({"self"}):
+                if env.get("#fresh-attr:" + e.attr):
+                    return FRESH
                 return frozenset({f"self.{e.attr}"})
             return self.ident_roots(e.value, env)
         if isinstance(e, ast.Subscript):
@@ -300,6 +302,8 @@ class _FunctionPass:
                         return self.apply_summary(
                             prop, fake, frozenset({"self"}), [], {}, env,
                             method=True)
+                    if env.get("#fresh-attr:" + e.attr):
+                        return FRESH
                     return frozenset({f"self.{e.attr}"})
             return self.roots(e.value, env)
         if isinstance(e, ast.Subscript):
@@ -334,9 +338,26 @@ class _FunctionPass:
             return r
         if isinstance(e, ast.Call):
             return self.call_roots(e, env)
+        if isinstance(e, (ast.ListComp, ast.SetComp, ast.DictComp,
+                          ast.GeneratorExp)):
+            # a fresh container whose elements are what the element
+            # expression evaluates to, with the comprehension variables
+            # bound to the elements of their iterables
+            loc = dict(env)
+            for g in e.generators:
+                it = _unelem(self.roots(g.iter, loc))
+                if isinstance(g.target, (ast.Name, ast.Tuple, ast.List)):
+                    self.bind(g.target, it, loc)
+                for c in g.ifs:
+                    self.roots(c, loc)
+            if isinstance(e, ast.DictComp):
+                self.roots(e.key, loc)
+                r = self.roots(e.value, loc)
+            else:
+                r = self.roots(e.elt, loc)
+            return frozenset("elem:" + x for x in _unelem(r))
         if isinstance(e, (ast.BinOp, ast.UnaryOp, ast.Compare, ast.Constant,
-                          ast.JoinedStr, ast.ListComp, ast.SetComp,
-                          ast.DictComp, ast.GeneratorExp, ast.Lambda)):
+                          ast.JoinedStr, ast.Lambda)):
             self.scan_calls(e, env)
             return FRESH
         return FRESH
@@ -385,6 +406,65 @@ class _FunctionPass:
                         changed = True
             self._arr_ev = ev
         return name in self._arr_ev
+
+    def _elements_immutable(self, name: str) -> bool:
+        """the container ``name`` was built (list / comprehension / dict
+        display) from expressions known to be numbers, strings or tuples:
+        attributes declared with such a type or default anywhere in the
+        package, len()/int()/float() calls, constants"""
+        IMM = ("int", "float", "str", "bool", "tuple", "Tuple", "complex")
+
+        def imm_attr(attr):
+            found = False
+            for c in self.an.model.all_classes():
+                if attr in getattr(c, "ann_only", {}):
+                    found = True
+                    if not any(k in src(c.ann_only[attr]) for k in IMM):
+                        return False
+                if attr in c.attrs:
+                    found = True
+                    v = c.attrs[attr]
+                    if not isinstance(v, (ast.Constant, ast.Tuple)):
+                        return False
+                m = c.methods.get(attr)
+                if m is not None:
+                    found = True
+                    ann = src(m.node.returns) if m.node.returns is not None \
+                        else ""
+                    if not any(ann.startswith(k) for k in IMM):
+                        return False
+            return found
+
+        def imm(e):
+            if isinstance(e, (ast.Constant, ast.Tuple, ast.JoinedStr)):
+                return True
+            if isinstance(e, ast.Call) and src(e.func) in (
+                    "len", "int", "float", "str", "bool", "tuple", "sum",
+                    "max", "min", "abs", "round"):
+                return True
+            if isinstance(e, ast.Attribute):
+                return imm_attr(e.attr)
+            if isinstance(e, ast.BinOp):
+                return imm(e.left) and imm(e.right)
+            return False
+        vals = []
+        for st in _walk_local(self.node):
+            if isinstance(st, ast.Assign) and any(
+                    isinstance(t, ast.Name) and t.id == name
+                    for t in st.targets):
+                v = st.value
+                if isinstance(v, (ast.ListComp, ast.SetComp,
+                                  ast.GeneratorExp)):
+                    vals.append(v.elt)
+                elif isinstance(v, ast.DictComp):
+                    vals.append(v.value)
+                elif isinstance(v, (ast.List, ast.Tuple, ast.Set)):
+                    vals.extend(v.elts)
+                elif isinstance(v, ast.Dict):
+                    vals.extend(x for x in v.values if x is not None)
+                else:
+                    return False
+        return bool(vals) and all(imm(v) for v in vals)
 
     def scan_calls(self, e, env):
         """visit calls buried in an expression for their effects"""
@@ -535,6 +615,11 @@ class _FunctionPass:
     def join(self, a: Dict[str, Roots], b: Dict[str, Roots]):
         out = {}
         for k in set(a) | set(b):
+            if k.startswith("#fresh-attr:"):
+                # must hold on both paths
+                if a.get(k) and b.get(k):
+                    out[k] = a[k]
+                continue
             out[k] = a.get(k, FRESH) | b.get(k, FRESH)
         return out
 
@@ -577,6 +662,12 @@ class _FunctionPass:
             if isinstance(target.value, ast.Name) and \
                     target.value.id == "self" and self.is_method:
                 self.summary.attr_stores.add(target.attr)
+                # self.X rebound: later stores into self.X[...] in this
+                # function go to the new object - fresh if the value is
+                if not roots:
+                    env["#fresh-attr:" + target.attr] = frozenset({"1"})
+                else:
+                    env.pop("#fresh-attr:" + target.attr, None)
             if isinstance(target.value, ast.Name) and \
                     target.value.id == "cls":
                 self.effect("global-write", FRESH, target,
@@ -610,6 +701,18 @@ class _FunctionPass:
                 self.effect("store", base, st,
                             f"in-place {_op(st.op)}= into "
                             f"{src(t.value)}[...]")
+                # c[k] op= v on a fresh container that holds shared
+                # elements: the element itself is updated in place when it
+                # is an array (numbers are rebound in the container)
+                shared = frozenset(r[5:] for r in base
+                                   if r.startswith("elem:"))
+                if shared and isinstance(t.value, ast.Name) and \
+                        not self._elements_immutable(t.value.id):
+                    self.effect("augassign-name", shared, st,
+                                f"{src(t)} {_op(st.op)}= ... updates the "
+                                f"element of {t.value.id} in place - an "
+                                f"object shared with "
+                                f"{sorted(shared)[0].split(':')[-1]}")
             elif isinstance(t, ast.Attribute):
                 base = self.roots(t.value, env)
                 self.effect("attr-store", base, st,
